@@ -45,6 +45,7 @@ def scenario(big: bool = False) -> Any:
     return st.fixed_dictionaries({
         "A": st.integers(1, 6 if big else 4), "P": st.integers(0, 6 if big else 3), "N": st.sampled_from([None, None, None, 1, 2, 3, 4] + ([6, 9] if big else [])),
         "ack_type": st.sampled_from(["when_received", "when_executed", "when_saved"]),
+        "ack_type_as_str": st.sampled_from([False, False, True]),
         "msgs": st.lists(msg, min_size=1, max_size=14 if big else 8),
         "stop": cm.times(), "has_stop": st.sampled_from([False, False, True]),
         "fail_saves": st.sets(st.integers(0, 13 if big else 7), max_size=3),
